@@ -9,7 +9,11 @@ def run(v):
     try:
         dst = os.path.join(d, "repo")
         shutil.copytree("/repo", dst, ignore=shutil.ignore_patterns(".git"))
-        for e in v["edits"]:
+        if v.get("patch"):
+            pr = subprocess.run(["git", "apply", "--whitespace=nowarn", os.path.join(V, v["patch"])], cwd=dst, capture_output=True, text=True)
+            if pr.returncode != 0:
+                return v["name"], "STALE patch does not apply: " + pr.stderr[-200:]
+        for e in v.get("edits", []):
             path = os.path.join(dst, e["file"]); s = open(path).read()
             if s.count(e["old"]) != e.get("count", 1):
                 return v["name"], "STALE %s (%d)" % (e["file"], s.count(e["old"]))
@@ -24,10 +28,14 @@ def run(v):
     finally:
         shutil.rmtree(d, ignore_errors=True)
 cat = json.load(open(os.path.join(V, "checker", "variants", "_benign_global.json")))
+# refactorings written by independent agents (benign/<id>/ref<k>.patch.diff), see DESIGN.md 8.6
+import glob
+for f in sorted(glob.glob(os.path.join(V, "benign", "*", "ref*.patch.diff"))):
+    cat.append({"name": "agent-" + os.path.basename(os.path.dirname(f)) + "-" + os.path.basename(f).split(".")[0], "patch": os.path.relpath(f, V)})
 only = sys.argv[1] if len(sys.argv) > 1 else None
-if only: cat = [v for v in cat if v["name"] == only]
+if only: cat = [v for v in cat if v["name"] == only or v["name"].startswith(only)]
 bad = 0
-with concurrent.futures.ThreadPoolExecutor(max_workers=6) as ex:
+with concurrent.futures.ThreadPoolExecutor(max_workers=8) as ex:
     for name, res in ex.map(run, cat):
         ok = res == []
         bad += 0 if ok else 1
